@@ -73,6 +73,8 @@ def parse_relations(feature: Feature, feature_node: Dict[str, Any]) -> None:  # 
             for child in relation['children']:
                 child_feature = parse_tree(feature, child)
                 children.append(child_feature)
+            if not children:
+                raise ParsingException(f'Relation without children in JSON: {relation}')
             relation_type = relation['type']
             new_relation: Optional[Relation] = None
             if relation_type == JSONFeatureType.OPTIONAL.value:
